@@ -84,7 +84,9 @@ WRONG2 = dict(medium_index=1.0, illum_wavelen={"red": 0.45, "green": 0.7},
 # ---------------------------------------------------------------------------
 # parameter sites
 # ---------------------------------------------------------------------------
-ONE_M = float(np.nextafter(1.0, 0.0))
+R2 = 0.25                       # fixed radius of the second sphere
+TOUCH = 0.5 + R2                # centre distance at which guess radii touch
+TOUCH_M = float(np.nextafter(TOUCH, 0.0))
 SITES = {
     "n": dict(guess=1.59, U=(1.4, 1.7), G=(1.59, 0.05),
               B=(1.59, 0.05, 1.4, 1.7), far=2.5),
@@ -106,7 +108,9 @@ SITES = {
                B=(0.5, 0.1, -0.25, 0.8), far=-0.1),      # far = invalid
     "x2": dict(guess=1.5, U=(0.0, 3.0), G=(1.5, 0.5),
                B=(1.5, 0.5, 0.0, 3.0), far=-1.0,
-               extra=[0.875, 1.0, ONE_M]),
+               # overlap exactly 0.125 * smallest diameter; touching;
+               # touching less 1 ulp
+               extra=[TOUCH - 2 * R2 * 0.125, TOUCH, TOUCH_M]),
 }
 VAL_NAMES_UB = ["guess", "lower", "upper", "lower-1ulp", "upper+1ulp",
                 "interior", "far"]
@@ -346,7 +350,7 @@ def build(cfg, shape=(4, 4), subset_pixels=7):
     if c.two:
         scat = Spheres([Sphere(n=1.59, r=site("r1", 0.5),
                                center=(0.0, 0.1, 5.0)),
-                        Sphere(n=1.45, r=site("r1", 0.5) if c.tied else 0.5,
+                        Sphere(n=1.45, r=site("r1", 0.5) if c.tied else R2,
                                center=(site("x2", 1.5), 0.1, 5.0))],
                        warn=False)
         constraints = [LimitOverlaps(FRACTION[kind])]
@@ -480,7 +484,7 @@ def harness_forward(c, vals, detector):
     if c.two:
         scat = Spheres([Sphere(n=1.59, r=g("r1", 0.5),
                                center=(0.0, 0.1, 5.0)),
-                        Sphere(n=1.45, r=g("r1", 0.5) if c.tied else 0.5,
+                        Sphere(n=1.45, r=g("r1", 0.5) if c.tied else R2,
                                center=(g("x2", 1.5), 0.1, 5.0))], warn=False)
     else:
         scat = Sphere(n=g("n", 1.59), r=g("r", 0.5),
@@ -544,7 +548,7 @@ def constraint_ok(c, vals):
     if not c.two:
         return True
     r1 = Fraction(vals.get("r1", 0.5))
-    r2 = r1 if c.tied else Fraction(0.5)
+    r2 = r1 if c.tied else Fraction(R2)
     dist = abs(Fraction(vals.get("x2", 1.5)))
     overlap = max(Fraction(0), r1 + r2 - dist)
     limit = 2 * min(r1, r2) * Fraction(FRACTION[c.cfg["kind"]])
@@ -1031,7 +1035,9 @@ def coverage_extra(cases, results):
             "pixel_selection_cases": npix,
             "config_axes": {k: list(v) for k, v in CFG_AXES.items()},
             "config_deviation_bound": 2,
-            "value_alphabet": VAL_NAMES_UB + ["(x2: 0.875, 1.0, 1-1ulp)"],
+            "value_alphabet": VAL_NAMES_UB + [
+                "(x2 also: overlap = 0.125 diameters, touching, touching "
+                "less 1 ulp)"],
             "value_alphabet_gaussian": VAL_NAMES_G,
             "seam_missing_cases": sum(
                 1 for r in results
